@@ -206,22 +206,12 @@ def applyMapping (mp : Mapping) (vals : List Int) : Except ErrKind (List Rat) :=
 /-- unsigned integer value of a cell -/
 def cellValue (cl : Cell) : Int := (ofLeBytes cl : Int)
 
-/-- a look-up table with ONE entry (first value mapped = last value mapped) -/
-def Mapping.singleEntryLut (mp : Mapping) : Bool := mp.isLut && mp.lut.length == 1
-
-/-- the mapping as the frame reader of `image.py` applies it.  **As the code is** (open finding
-    C19-single-entry-lut-unreadable): pydicom hands a one-entry `RealWorldValueLUTData` back as a bare number,
-    `_CombinedPixelTransform` wraps it with `np.array` (0-d) and `apply_lut` asks for its `len` -> `TypeError`, whatever the
-    frame holds.  `RealWorldValueMapping.apply` itself (`applyMapping`) reads such a table (fixed, /repo 2f03f11). -/
-def applyOnRead (mp : Mapping) (vals : List Int) : Except ErrKind (List Rat) :=
-  if mp.singleEntryLut then .error .type else applyMapping mp vals
-
 /-- `get_frame(f + 1, apply_real_world_transform=True, real_world_value_map_selector=sel)` -/
 def readReal (o : PMObject) (f : Nat) (sel : Selector) : Except ErrKind (List Rat) := do
   let stored ← readStoredFrame o f
   let ms ← attachedMappings o f
   let mp ← select ms sel
-  applyOnRead mp (stored.map cellValue)
+  applyMapping mp (stored.map cellValue)
 
 /-! ### secondary capture -/
 
